@@ -92,7 +92,8 @@ func (c *Catalog) Version() string {
 type PageTree struct {
 	root     core.Dict
 	resolver ObjectResolver
-	pages    []*Page // Cached flattened page list
+	pages    []*Page      // Cached flattened page list
+	visited  map[int]bool // object numbers of the nodes already traversed (cycle guard)
 }
 
 // NewPageTree creates a new page tree from the root pages dictionary
@@ -156,9 +157,11 @@ func (t *PageTree) Pages() ([]*Page, error) {
 // loadPages traverses the page tree and builds the flattened page list
 func (t *PageTree) loadPages() error {
 	t.pages = make([]*Page, 0)
+	t.visited = make(map[int]bool)
 
 	// Start recursive traversal from root
 	if err := t.traversePageNode(t.root, nil); err != nil {
+		t.pages = nil
 		return fmt.Errorf("failed to traverse page tree: %w", err)
 	}
 
@@ -205,6 +208,17 @@ func (t *PageTree) traversePageNode(node core.Dict, parent core.Dict) error {
 
 		// Traverse each child
 		for i, kidObj := range kids {
+			// Every node belongs to the tree once. A /Kids entry that leads back to
+			// a node already traversed (a node listing itself or an ancestor, or a
+			// subtree shared between parents) would recurse for ever or multiply
+			// the page list without bound.
+			if ref, ok := kidObj.(core.IndirectRef); ok {
+				if t.visited[ref.Number] {
+					return fmt.Errorf("page tree node %d is reachable more than once", ref.Number)
+				}
+				t.visited[ref.Number] = true
+			}
+
 			// Resolve child reference
 			kidResolved, err := t.resolver.Resolve(kidObj)
 			if err != nil {
